@@ -140,7 +140,7 @@ impl Peer {
                 let n = body.len();
                 body.truncate(n / 2);
             }
-            "fds+1" => files.push(memfd("extra", 0)),
+            "fds+1" | "fds+1_seg" => files.push(memfd("extra", 0)),
             "fds+2" => {
                 files.push(memfd("extra", 0));
                 files.push(memfd("extra", 0));
@@ -209,6 +209,19 @@ impl Peer {
                     let _ = raw_send_all(&self.sock, &bytes, &fds);
                     let _ = self.sock.shutdown(std::net::Shutdown::Write);
                 }
+            }
+            "fds+1_seg" | "fds_late" => {
+                // the reply arrives as header | rest in two segments; "fds+1_seg": a surplus descriptor rides on the first
+                // segment, "fds_late": the reply's own descriptors ride on the second one (not on the message's first byte)
+                let cut = 12.min(bytes.len() - 1).max(1);
+                let late = behaviour == "fds_late";
+                let _ = raw_send_all(&self.sock, &bytes[..cut], if late { &[] } else { &fds });
+                let t0 = Instant::now();
+                while fionread(fe_fd) > 0 && t0.elapsed() < Duration::from_millis(500) {
+                    std::thread::sleep(Duration::from_micros(20));
+                }
+                let _ = raw_send_all(&self.sock, &bytes[cut..], if late { &fds } else { &[] });
+                let _ = self.sock.shutdown(std::net::Shutdown::Write);
             }
             "seg" => {
                 // C08: the (correct) reply arrives in separate segments; the next one is written only after the
